@@ -562,9 +562,14 @@ func (r *Run) replayFile(path string) {
 		if reps < 1 {
 			reps = 1
 		}
+		wd := r.StartWatchdog(e.Name, 0, 45*time.Second)
+		defer wd.Stop()
 		for i := 0; i < reps; i++ {
 			r.evals.Add(1)
-			if f := e.Replay(in.Scenario); f != nil {
+			wd.Enter(json.RawMessage(in.Scenario))
+			f := e.Replay(in.Scenario)
+			wd.Leave()
+			if f != nil {
 				f.Engine = e.Name
 				var sc any
 				_ = json.Unmarshal(in.Scenario, &sc)
@@ -662,3 +667,59 @@ func (r *Run) writeVerdict(meta Meta) {
 		r.T.Logf("INCONCLUSIVE %s", s)
 	}
 }
+
+// ---------------------------------------------------------------------------------------
+// real-time watchdog for cases that may hang the calling goroutine (DESIGN.md 2.5)
+
+type Watchdog struct {
+	r      *Run
+	engine string
+	shard  int
+	mu     sync.Mutex
+	cur    any
+	stamp  time.Time
+	busy   bool
+	stop   chan struct{}
+}
+
+// StartWatchdog returns a watchdog; call Enter(scenario) before and Leave() after a case.
+// If a case stays entered for longer than d of real time the scenario is persisted as
+// current-<shard>.json and the process exits with status 3 (the driver confirms by replay).
+func (r *Run) StartWatchdog(engine string, shard int, d time.Duration) *Watchdog {
+	w := &Watchdog{r: r, engine: engine, shard: shard, stop: make(chan struct{})}
+	go func() {
+		tk := time.NewTicker(d / 4)
+		defer tk.Stop()
+		for {
+			select {
+			case <-w.stop:
+				return
+			case <-tk.C:
+				w.mu.Lock()
+				hung := w.busy && time.Since(w.stamp) > d
+				cur := w.cur
+				w.mu.Unlock()
+				if hung {
+					r.SetCurrent(engine, shard, cur)
+					fmt.Fprintf(os.Stderr, "WATCHDOG engine=%s shard=%d: case did not return within %v\n", engine, shard, d)
+					os.Exit(3)
+				}
+			}
+		}
+	}()
+	return w
+}
+
+func (w *Watchdog) Enter(scenario any) {
+	w.mu.Lock()
+	w.cur, w.stamp, w.busy = scenario, time.Now(), true
+	w.mu.Unlock()
+}
+
+func (w *Watchdog) Leave() {
+	w.mu.Lock()
+	w.busy = false
+	w.mu.Unlock()
+}
+
+func (w *Watchdog) Stop() { close(w.stop) }
